@@ -90,6 +90,7 @@ package nat
 // by this call) from the stable path (the stored object is returned). locked() on the
 // allocating path is the state at the insertion into A.
 //@ func (m *Manager) AllocateNAT
+//@   modifies m.allocations, m.pool, m.subscriberIDs, m.nextSubscriberID, m.natLogger.buffer, m.natLogger.currentFile, m.natLogger.currentSize, m.natLogger.portBlockBuffer
 //@   ensures err == nil ==> result != nil
 //@   ensures err == nil && !fresh(result) ==> exists k uint32 :: lockedN(1, k in m.allocations) && lockedN(1, m.allocations[k]) == result
 //@   ensures err == nil && fresh(result) ==> forall k uint32 :: k in m.allocations && m.allocations[k] == result ==> !locked(k in m.allocations)
